@@ -1,2 +1,87 @@
-(* C05 — placeholder *)
-From HC Require Import Base.
+(* C05 — Merkle tree, root hash and signature match an independent reference (pinned statements;
+   proofs in FlatTreeFacts.v and TreeRef.v). `ref_node cr blocks d o` is the reference tree of the
+   Hypercore v10 scheme by structural recursion: leaves are block_node (BLAKE2b over type 0, LE size,
+   data), parents are parent_node (type 1, summed LE size, both child hashes), flat in-order numbering;
+   ref_roots n are the roots of the binary decomposition of n.
+   Proved, for every block sequence and every way of cutting it into batches: the incremental changeset
+   (binary-increment carry chain of append_root) produces exactly the reference roots, length, byte
+   length, and every node it pushes (= every node later persisted in the oplog entry and the tree store,
+   and served in proofs) IS the reference node at its flat index; the signature is the signature over
+   (tree namespace, hash of the reference roots, length, fork) and verifies; sizes of reference nodes are
+   the sums of the block sizes they span; no overflow panic when the total size fits in u64.
+   Partial: that flush/reopen/replay move these nodes to and from storage unchanged is covered by the
+   reference-tree oracle of tools/c05.py (raw tree/oplog bytes, proofs) and by the C06 round-trip theorems. *)
+From HC Require Import Base NMap Codec CodecFacts Crypto FlatTree Merkle Core FlatTreeFacts TreeRef.
+
+Theorem C05_batch_is_reference : forall cr blocks batch c c' k,
+  cs_roots c = ref_roots cr blocks k ->
+  cs_length c = k ->
+  (forall j, (j < length batch)%nat -> nth j batch [] = blk blocks (k + N.of_nat j)) ->
+  cs_append_all cr c batch = Ok c' ->
+  cs_roots c' = ref_roots cr blocks (k + N.of_nat (length batch)) /\
+  cs_length c' = k + N.of_nat (length batch) /\
+  cs_byte_length c' = cs_byte_length c + sumN (map len batch) /\
+  cs_batch_length c' = cs_batch_length c + N.of_nat (length batch) /\
+  cs_ancestors c' = cs_ancestors c /\
+  cs_fork c' = cs_fork c /\
+  (batch <> [] -> cs_upgraded c' = true) /\
+  (forall n, In n (cs_nodes c') -> In n (cs_nodes c) \/ n = ref_at cr blocks (n_index n)).
+Proof. exact cs_append_all_ref. Qed.
+
+Theorem C05_from_empty : forall cr blocks c',
+  cs_append_all cr (tree_changeset empty_tree) blocks = Ok c' ->
+  cs_roots c' = ref_roots cr blocks (N.of_nat (length blocks)) /\
+  cs_length c' = N.of_nat (length blocks) /\
+  cs_byte_length c' = sumN (map len blocks) /\
+  cs_batch_length c' = N.of_nat (length blocks) /\
+  cs_ancestors c' = 0 /\ cs_fork c' = 0 /\
+  (forall n, In n (cs_nodes c') -> n = ref_at cr blocks (n_index n)).
+Proof. exact cs_append_all_from_empty. Qed.
+
+Theorem C05_signature_over_reference : forall cr blocks batch c c' k sk,
+  cs_roots c = ref_roots cr blocks k ->
+  cs_length c = k ->
+  (forall j, (j < length batch)%nat -> nth j batch [] = blk blocks (k + N.of_nat j)) ->
+  cs_append_all cr c batch = Ok c' ->
+  let n := k + N.of_nat (length batch) in
+  let h := tree_hash cr (ref_roots cr blocks n) in
+  let msg := signable h n (cs_fork c') in
+  cs_hash (cs_hash_and_sign cr c' sk) = Some h /\
+  cs_signature (cs_hash_and_sign cr c' sk) = Some (cr_sign cr sk msg) /\
+  cs_roots (cs_hash_and_sign cr c' sk) = ref_roots cr blocks n /\
+  cs_length (cs_hash_and_sign cr c' sk) = n /\
+  (forall pk_of : bytes -> bytes,
+     (forall sk0 m, cr_verify cr (pk_of sk0) m (cr_sign cr sk0 m) = true) ->
+     forall s, cs_signature (cs_hash_and_sign cr c' sk) = Some s -> cr_verify cr (pk_of sk) msg s = true).
+Proof. exact signature_is_over_reference. Qed.
+
+Theorem C05_root_sizes : forall cr blocks n,
+  sumN (map n_length (ref_roots cr blocks n)) = prefix_size blocks n.
+Proof. exact ref_roots_size. Qed.
+
+Theorem C05_no_overflow_panic : forall cr blocks,
+  sumN (map len blocks) <= u64_max ->
+  exists c', cs_append_all cr (tree_changeset empty_tree) blocks = Ok c' /\
+             cs_roots c' = ref_roots cr blocks (N.of_nat (length blocks)) /\
+             cs_byte_length c' = sumN (map len blocks).
+Proof. exact cs_append_all_from_empty_ok. Qed.
+
+(* flat-tree numbering facts the reference rests on *)
+Theorem C05_flat_index_decomposition : forall i, i + 1 = 2 ^ ft_depth i * (2 * ft_offset i + 1).
+Proof. exact ft_decomp. Qed.
+
+Example C05_ex :
+  match cs_append_all toy_crypto (tree_changeset empty_tree) toy_blocks with
+  | Ok c' => cs_roots c' = ref_roots toy_crypto toy_blocks 5 /\ map n_index (cs_roots c') = [3; 8] /\
+             map n_length (cs_roots c') = [8; 2] /\ cs_length c' = 5 /\ cs_byte_length c' = 10 /\
+             map n_index (cs_nodes c') = [0; 2; 1; 4; 6; 5; 3; 8]
+  | _ => False
+  end.
+Proof. exact toy_append_all_is_reference. Qed.
+
+Print Assumptions C05_batch_is_reference.
+Print Assumptions C05_from_empty.
+Print Assumptions C05_signature_over_reference.
+Print Assumptions C05_root_sizes.
+Print Assumptions C05_no_overflow_panic.
+Print Assumptions C05_flat_index_decomposition.
